@@ -92,13 +92,15 @@ def run_tags_chunk(chunk):
         served_all = [t for t, pl in zip(tags, placement) if pl != "absent"]
         served_head = [t for t, pl in zip(tags, placement) if pl == "head"]
         for scope in c09.SCOPES:
-          for bump in P.get("bumps", [P["bump"]]):
+          for bump, fetch_fault in [(b_, False) for b_ in P.get("bumps", [P["bump"]])] + [(P["bump"], True)]:
             world.clear_dir(".")
             world.write_tree(c09.project(name, cfgv, scope))
             os.mkdir(".git")
-            fake = fakevcs.install(fakevcs.FakeVCS("git", tags_all=served_all, tags_merged=served_head, status=[]))
+            # fetch_fault: a remote exists, fetching is on (the default) and `git fetch` fails (offline)
+            fake = fakevcs.install(fakevcs.FakeVCS("git", tags_all=served_all, tags_merged=served_head, status=[],
+                                                   fail=("fetch", 0) if fetch_fault else None))
             try:
-                o = world.cli("update", "--dry", "--no-fetch", *bump)
+                o = world.cli("update", "--dry", "--fetch" if fetch_fault else "--no-fetch", *bump)
             finally:
                 fakevcs.uninstall()
             st.evaluations += 1
@@ -106,7 +108,7 @@ def run_tags_chunk(chunk):
             st.validated += 1
             st.state("tags", name, pos, scope, placement)
             st.observe((name, pos, scope, placement, o.exit, o.new_version))
-            case = {"tags_case": name, "config": cfgv, "scope": scope, "bump": bump, "tags": {t: pl for t, pl in zip(tags, placement) if pl != "absent"}}
+            case = {"tags_case": name, "config": cfgv, "scope": scope, "bump": bump, "fetch_fails": fetch_fault, "tags": {t: pl for t, pl in zip(tags, placement) if pl != "absent"}}
             if o.exit != 0:
                 st.outcomes["update --dry:refused(tags)"] += 1
                 continue
@@ -115,7 +117,7 @@ def run_tags_chunk(chunk):
             want = c09.expected_start(name, cfgv, scope, False, placement, tags)
             new = o.new_version
             if new is None or not all(bg.greater(new, s_) for s_ in want):
-                st.violation(f"C01:announced-version-not-greater-than-newest-tag-in-scope:{name}:{scope}", case,
+                st.violation(f"C01:announced-version-not-greater-than-newest-tag-in-scope:{name}:{scope}" + (":fetch-failed" if fetch_fault else ""), case,
                              {"announced": new, "reference_start_version": sorted(want), "old_version_line": o.old_version})
     os.chdir("/")
     return st
